@@ -1,4 +1,5 @@
-(** Per-case verdict for the wide C01 alphabet. *)
+(** Per-case verdicts for the wide C01 alphabet: [check_x] over block chains (model [run_x]; used by C12's engine
+    check through its own copy) and [check_y] over stage lists (model [ChainStages.run_y]; what checks/c01.py runs). *)
 From SF Require Export Model.ChainExt.
 From SF Require Import Model.ChainG Model.ChainExtProof.
 From SF Require Import Model.ChainStages.
